@@ -34,6 +34,15 @@ def plan(tier, seed):
     cases += rowlib.gen_cases(G.deletions(rng, 120 if quick else 1500), 8, CFGS_Q, "del")
     cases += rowlib.gen_cases(G.additions(rng, 40 if quick else 400), 8, CFGS_Q, "add")
     cases += rowlib.gen_cases(G.marker_collisions(rng, 40 if quick else 400), 8, CFGS_Q, "marker")
+    # mixed batches: redox rows (post-processed), MCS rows (solved only in the final pass), rule-based and
+    # balanced rows shuffled together, so that bookkeeping between the passes is exercised across row kinds
+    from vgen import corpus as _corpus
+    mixed = (G.redox_family(rng, 60 if quick else 600) + G.deletions(rng, 40 if quick else 400)
+             + [("val_%d" % r["id"], r["reaction"]) for r in _corpus.stratified_sample(rng, 80 if quick else 800)]
+             + [("mcs", rx) for rx in ("CC(=O)OCC>>CC(=O)O", "CC(=O)OC>>CC(=O)O", "CS(=O)(=O)OCC>>CCO",
+                                       "CC(=O)NC>>CN", "c1ccccc1C(=O)OC>>OC") * (4 if quick else 30)])
+    rng.shuffle(mixed)
+    cases += rowlib.gen_cases(mixed, 12, [CFGS_Q[0], CFGS_Q[2]], "mixed")
     if not quick:
         from vgen import corpus
         raw = corpus.raw_reactions()
